@@ -46,16 +46,9 @@ def run(tier, out):
             sig = "window|%s|%s" % (bad.get("op") if bad else "?", "acc=%s" % bad.get("acc") if bad else "")
             out.violation(sig, "real CryptoCore deviates from NonceWindow.tla: %s; event %s" % (v.reason, bad),
                           {"driver": name, "trace_run": evs[start:v.matched + 1]})
-    # binding self-test: invert one accept flag, TLC must reject
-    st = os.path.join(wd, "trace_selftest.ndjson")
-    hit = V.corrupt_trace(tp, st, lambda e: e["op"] == "deliver" and e["acc"] is False,
-                          lambda e: e.__setitem__("acc", True))
-    if hit is None:
-        V.selftest_fail(PID, "no rejected delivery in the recorded trace (vacuous)")
-    if not out.violations:
-        v = V.tlc_trace("Trace_NonceWindow.tla", "Trace_NonceWindow.cfg", PID, st, s1["events"], sub="trace-selftest")
-        if v.accepted or v.matched != hit - 1:
-            V.selftest_fail(PID, "corrupted trace (line %d) was not rejected at that line (matched %s)" % (hit, v.matched))
+    st_desc = V.binding_selftest(out, PID, "Trace_NonceWindow.tla", "Trace_NonceWindow.cfg", tp, s1["events"],
+                                 lambda e: e["op"] == "deliver" and e["acc"] is False,
+                                 lambda e: e.__setitem__("acc", True), "inverted accept flag")
     evs = V.read_ndjson(tp)[:12]
     cov = {
         "states": d.distinct, "transitions": d.generated, "depth": d.depth,
@@ -66,7 +59,7 @@ def run(tier, out):
         "rule": "every transition of the exhaustive TLC graph of NonceWindow (bounds in %s) executed on real CryptoCore pairs for 3 ciphers; "
                 "%d seeded random histories of length %d over four slots; distinct = exported transitions" % (cfg, nrand, rlen),
         "schedules": len(scheds), "exported_transitions": len(edges),
-        "self_test": "inverted accept flag at trace line %d rejected by TLC" % hit,
+        "self_test": st_desc,
         "checker_cmd": "tlc MC_NonceWindow / Trace_NonceWindow",
     }
     return out.finish("model_checking", cov, assumptions=[
